@@ -354,9 +354,9 @@ func (m *c19Model) enabled(op *c19Op) bool {
 		if !m.writable {
 			return op.rep
 		}
-		if m.pending {
-			return false // changing the buffer with unwritten bytes in it is undefined in ISO C
-		}
+		// (changing the buffer with unwritten bytes in it is undefined in ISO C; every libc flushes them,
+		// and the statement lists setvbuf among the operations of a history without restriction: judged as
+		// "nothing is lost or reordered" - the model keeps the bytes and its unflushed flag)
 	}
 	return true
 }
@@ -1364,7 +1364,7 @@ func runC19(r *harness.Run) {
 	r.Assumptions = []string{
 		"initial cursor of a/a+ handles is not asserted (ISO C leaves it open): reads and relative seeks are enabled only after a seek(\"set\"|\"end\") or a write",
 		"read -> flush -> write is not explored (ISO C requires a positioning call between input and output; fflush after input is undefined)",
-		"setvbuf is not applied while a full-buffered handle holds unflushed bytes (undefined in ISO C)",
+		"setvbuf on a handle that holds unflushed full-buffered bytes (undefined in ISO C) is judged as: no byte is lost or reordered - they must be on disk at the next flush/close, before whatever is written afterwards",
 		"return values of write, flush, setvbuf and close are not judged (the statement does not fix them); a write on a read-only handle and a read on a write-only handle must return nil first and change nothing",
 		"read(\"*n\") is asserted only where fscanf(\"%lf\") is unambiguous: optional white space, then a plain decimal token followed by white space or end-of-file, or white space up to end-of-file; otherwise the history is not continued",
 		"real OS errors (EIO, short reads) are not injected",
@@ -1518,7 +1518,9 @@ func runC19(r *harness.Run) {
 	r.Extra["traces_validated_against_impl"] = totTrans
 	r.Extra["campaigns"] = campReports
 	r.Extra["disk_comparisons"] = atomic.LoadInt64(&c.disks)
+	c19Spellings(r)
 	runPinned(r, "C19")
+	reentrantFamily(r, "C19")
 }
 
 // replayC19 re-executes one stored history.
